@@ -5,7 +5,6 @@ import (
 	"fmt"
 	"golang.org/x/net/bpf"
 	"os"
-	"reflect"
 	"strings"
 
 	seccomp "github.com/elastic/go-seccomp-bpf"
@@ -90,7 +89,7 @@ func shareBackingArrays(p *seccomp.Policy, mode int) {
 			// windows of one array)
 			k := 0
 			for kk := n - 1; kk >= 1; kk-- {
-				if kk <= lastLen && reflect.DeepEqual(conds[len(conds)-kk:], w.Conditions[:kk]) {
+				if kk <= lastLen && sameConds(conds[len(conds)-kk:], w.Conditions[:kk]) {
 					k = kk
 					break
 				}
@@ -128,6 +127,18 @@ func shareBackingArrays(p *seccomp.Policy, mode int) {
 			wo += n
 		}
 	}
+}
+
+func sameConds(a, b []seccomp.Condition) bool {
+	if len(a) != len(b) {
+		return false
+	}
+	for i := range a {
+		if a[i] != b[i] {
+			return false
+		}
+	}
+	return true
 }
 
 func compilePolicy(le bool, archName string, p *seccomp.Policy) (res string) {
